@@ -393,7 +393,11 @@ def _shape_boundary(k):
                ([2024, 1, 1], [2024, 12, 30]),    # ends one day before Dec 31 of a leap year
                ([2022, 12, 31], [2023, 12, 31])]  # starts on Dec 31, first day is the last of a year
     st, en = periods[k % len(periods)]
-    return {"start": st, "end": en, "n_sims": 2, "n_sites": 5}
+    # placeholder infrastructure every second round (one components' repairable and non-repairable source are
+    # built from ONE propagated parameter set there), with a repairable duration well above the non-repairable one
+    return {"start": st, "end": en, "n_sims": 2, "n_sites": 5, "granular": k % 2 == 1,
+            "rep": {"epr": 0.015625, "duration": [120, 60, 365][k % 3], "multi": True},
+            "nonrep": {"epr": 0.015625, "duration": [20, 45][k % 2], "multi": True}}
 
 
 def _shape_extra_sources(k):
